@@ -36,12 +36,12 @@ CLAIMED = {
             "DESIGN.md §3 C11"),
     "C19": ("exploration",
             "history monitor: generated well-nested event streams fed directly to callTracer/flatCallTracer (8 configs); GetResult checked against the tree rebuilt from the same stream",
-            "An exhaustive skeleton family (0-2 Aspects per join point, 0-2 calls inside an Aspect, 0-2 body calls, nested join points) plus random deeper streams are fed through the tracers' EVMLogger+AspectLogger methods; no panic, every frame and Aspect execution exactly once under its issuer with its own gasUsed/output/error; flat: unique prefix-closed trace addresses, children numbered 0..k-1, subtraces = emitted children.",
+            "An exhaustive skeleton family (0-2 Aspects per join point, 0-2 calls inside an Aspect, 0-2 body calls, nested join points) plus random deeper streams are fed through the tracers' EVMLogger+AspectLogger methods; no panic, every frame and Aspect execution exactly once under its issuer with its own gasUsed/output/error; flat: unique prefix-closed trace addresses, children numbered 0..k-1, subtraces = emitted children. Transaction-level join points (Aspects before the top-level frame is announced and after it ended, with calls of their own) are part of the generated streams.",
             "The expected tree comes from models/calltrace applied to the same stream; documented design filters (precompile pruning, onlyTopCall) are modelled.",
             "DESIGN.md §3 C19"),
     "C09": ("exploration",
             "reference-model monitor: recorded journal bytes vs an independent Solidity-layout decoder applied to the same storage (offline for single-instruction programs, online at the journal step for overwrite/journal sequences)",
-            "The complete (offset,width) grid [0,33]x[0,33] plus boundary values up to 2^256-1 over 6 storage words, strings of every length 0..100 and 127/128/255/256/1000/4096 in 5 content classes at 9 slot positions, all invalid length encodings, and random SSTORE/journal sequences are executed on the real VM; recorded bytes (by name and by slot) must equal the decoder's; operands outside the decoder's domain must fail the frame and record nothing.",
+            "The complete (offset,width) grid [0,33]x[0,33] plus boundary values up to 2^256-1 over 6 storage words, strings of every length 0..100 and 127/128/255/256/1000/4096 in 5 content classes at 9 slot positions, all invalid length encodings, and random SSTORE/journal sequences are executed on the real VM; recorded bytes (by name and by slot) must equal the decoder's; operands outside the decoder's domain must fail the frame and record nothing. Slots whose data area crosses a byte carry (keccak ending in ff/fe/fd/ffff/00) are included.",
             "models/sollayout is the trusted decoder; width 0 only asserted not to crash; string lengths above 4096 left to C20.",
             "DESIGN.md §3 C09"),
     "C07": ("exploration",
@@ -51,7 +51,7 @@ CLAIMED = {
             "DESIGN.md §3 C07"),
     "C08": ("exploration",
             "offline log checker: VM call tree vs an independent attempt log (operands and memory copied at each CALL/CREATE/CREATE2 step, outcome from Exit events, gas handed back derived from the caller's next step), compared at the end of the transaction",
-            "Every node's From/To/Value/supplied gas/calldata or init code/parent and Ret/Err class/RemainingGas are compared with the shadow attempt log after the program has had every chance to overwrite its memory; refused attempts must have a node carrying a refusal error; workloads overlap argument and return areas, overwrite arguments after the call and grow memory.",
+            "Every node's From/To/Value/supplied gas/calldata or init code/parent and Ret/Err class/RemainingGas are compared with the shadow attempt log after the program has had every chance to overwrite its memory; refused attempts must have a node carrying a refusal error; workloads overlap argument and return areas, overwrite arguments after the call and grow memory. Each node must list exactly the attempts its frame issued, in program order.",
             "Shadow log from the debug-tracer stream; calldata compared when the step's memory (<= 64 KiB) was copied; refused CALLs: supplied gas := gas handed back.",
             "DESIGN.md §3 C08"),
     "C10": ("exploration",
@@ -71,17 +71,17 @@ CLAIMED = {
             "DESIGN.md §3 C05"),
     "C06": ("fault_enumeration",
             "conservation checker over Step/Enter/Exit/AspectEnter/AspectExit events with real gas-metered WASM Aspects and injected join-point failures",
-            "Per frame: Aspect i is given what Aspect i-1 left; callee's first instruction sees entry gas minus pre burns; gas handed back (derived from the caller's next instruction) equals callee end gas minus post burns; no frame hands back more than given; an out-of-gas join point surfaces as the identical vm.ErrOutOfGas with nothing handed back; other non-revert post failures hand back nothing.",
+            "Per frame: Aspect i is given what Aspect i-1 left; callee's first instruction sees entry gas minus pre burns; gas handed back (derived from the caller's next instruction) equals callee end gas minus post burns; no frame hands back more than given; an out-of-gas join point surfaces as the identical vm.ErrOutOfGas with nothing handed back; other non-revert post failures hand back nothing. Every frame (join points or not) is also checked for: handed-back gas <= given, call-tree remaining gas == gas handed back, and a frame no join point surrounds hands back exactly what its code left; callees halting on an undefined instruction or stack error have a known leftover, so what the post join point is offered is checked there too.",
             "Burn = gas reported at AspectEnter minus gas in the result at AspectExit; callee end gas rebuilt for frames ending in STOP/RETURN/REVERT.",
             "DESIGN.md §3 C06"),
     "C12": ("exploration",
             "pairwise differential on the fork itself (journal instruction + padding vs pops of equal length) with aligned-step comparison and fee accounting; malformed-operand halts checked per fork",
-            "For generated call trees containing all eight journal opcodes with well-formed operands in static and non-static frames on Frontier..Cancun: result, logs, post-state and every aligned step (pc, op, depth, full stack, memory, return data) equal the pops program's; each journal step costs one non-zero constant (cross-case: one value over all forks); leftover difference equals the predicted sum; every journal opcode behaves like its pops at stack heights up to 1024. Malformed operand sets (incl. name/key pointers and lengths outside the frame's memory) halt the frame with all gas gone, effects reverted, caller sees 0.",
+            "For generated call trees containing all eight journal opcodes with well-formed operands in static and non-static frames on Frontier..Cancun: result, logs, post-state and every aligned step (pc, op, depth, full stack, memory, return data) equal the pops program's; each journal step costs one non-zero constant (cross-case: one value over all forks); leftover difference equals the predicted sum; every journal opcode behaves like its pops at stack heights up to 1024. Malformed operand sets (incl. name/key pointers and lengths outside the frame's memory) halt the frame with all gas gone, effects reverted, caller sees 0. Exact-gas runs: programs re-run with exactly the gas they consume plus small slacks must finish identically (the fee is all a journal instruction needs).",
             "Programs are gas/code-insensitive by construction; well-formedness per the C09/C11 models.",
             "DESIGN.md §3 C12"),
     "C14": ("exploration",
             "boundary monitor with recording host callbacks + strict reference decoders (big-integer ABI (bytes,bytes) decoder, address+key, 32-byte hash) over generated hostile payloads for all four call kinds and caller depths",
-            "A contract at depth 1-3 calls 0x64/0x65/0x66 by CALL/CALLCODE/DELEGATECALL/STATICCALL on Istanbul..Cancun with payloads of length 0..400, canonical encodings with head/length words replaced by boundary values up to 2^256-1, truncations and random bytes; several contracts writing through 0x66 in one EVM instance; one EVM moved across the Berlin block with SetBlockContext; the host callbacks record exactly what they receive. Well-formed: exactly one callback with exactly the decoded arguments, return data = host answer, fee 5000, write attributed to the calling contract (other call kinds may refuse); malformed: no callback, failure, all gas consumed; host error propagates; pre-Berlin: no callback; never a panic.",
+            "A contract at depth 1-3 calls 0x64/0x65/0x66 by CALL/CALLCODE/DELEGATECALL/STATICCALL on Istanbul..Cancun with payloads of length 0..400, canonical encodings with head/length words replaced by boundary values up to 2^256-1, truncations and random bytes; several contracts writing through 0x66 in one EVM instance; one EVM moved across the Berlin block with SetBlockContext; the host callbacks record exactly what they receive. Well-formed: exactly one callback with exactly the decoded arguments, return data = host answer, fee 5000, write attributed to the calling contract (other call kinds may refuse); malformed: no callback, failure, all gas consumed; host error propagates; pre-Berlin: no callback; never a panic. Kind proxy: chains that run library code by DELEGATECALL/CALLCODE before the CALL to 0x66 (the borrowing contract owns the write); Prague-configured chains included.",
             "Non-canonical in-bounds encodings may be accepted or rejected; five deliberate lenient-success behaviours for truncated payloads are recorded as known findings.",
             "DESIGN.md §3 C14"),
     "C15": ("exploration",
